@@ -140,6 +140,12 @@ impl Api {
         }
     }
     /// another thread keeps a lookup guard (ValueRef) on key k alive for `ms` milliseconds; returns once it is held
+    fn get_ttl(&self, k: u64) -> bool {
+        match &self.0 {
+            AnyCache::Sync(c) => c.get_ttl(&k).is_some(),
+            AnyCache::Async(c) => c.get_ttl(&k).is_some(),
+        }
+    }
     fn hold_ref(&self, k: u64, ms: u64) -> Option<std::thread::JoinHandle<()>> {
         let (tx, rx) = mpsc::channel::<bool>();
         let c = self.0.clone();
@@ -422,6 +428,29 @@ fn par_instance(tx: mpsc::Sender<Value>, seed: u64, flavor: String, exec: String
         resident_key = Some(k);
         VLOG.lock().clear();
         VLOG_ON.store(true, Ordering::SeqCst);
+        verif::locks::drain();
+        verif::locks::enable(true);
+        // readers of the same key meanwhile: get (guard dropped at once) and get_ttl
+        let readers: Vec<_> = (0..2u64)
+            .map(|t| {
+                let api = api.clone();
+                std::thread::Builder::new()
+                    .name(format!("par-r{}", t))
+                    .spawn(move || {
+                        let mut n = 0u64;
+                        for i in 0..400u64 {
+                            if i % 2 == t % 2 {
+                                api.get_ttl(k);
+                            } else {
+                                api.get(k);
+                                n += 1;
+                            }
+                        }
+                        n
+                    })
+                    .expect("spawn")
+            })
+            .collect();
         let writers = 4u64;
         let per = 30u64;
         let base = next_val;
@@ -429,7 +458,7 @@ fn par_instance(tx: mpsc::Sender<Value>, seed: u64, flavor: String, exec: String
         let hs: Vec<_> = (0..writers)
             .map(|t| {
                 let api = api.clone();
-                std::thread::spawn(move || {
+                std::thread::Builder::new().name(format!("par-w{}", t)).spawn(move || {
                     for i in 0..per {
                         let v = base + t * per + i;
                         if (t + i) % 2 == 0 {
@@ -438,13 +467,21 @@ fn par_instance(tx: mpsc::Sender<Value>, seed: u64, flavor: String, exec: String
                             api.insert_only(k, v, 1);
                         }
                     }
-                })
+                }).expect("spawn")
             })
             .collect();
         for h in hs {
             let _ = h.join();
         }
+        for h in readers {
+            let _ = h.join();
+        }
         VLOG_ON.store(false, Ordering::SeqCst);
+        verif::locks::enable(false);
+        let raw = verif::locks::drain();
+        let par = |e: &&verif::locks::LockEvent| e.thread.starts_with("par-");
+        let (wants, rels) = (raw.iter().filter(par).filter(|e| e.kind == "want").count(), raw.iter().filter(par).filter(|e| e.kind == "rel").count());
+        let _ = tx.send(json!({"ev":"Locks","locks":crate::cache::lock_events_json(raw, true),"wants":wants,"rels":rels}));
         let calls: Vec<Value> = VLOG.lock().drain(..).map(|(p, c, ok)| json!([p, c, ok])).collect();
         api.wait();
         let fin = api.get(k).map(|v| v as i64).unwrap_or(-1);
